@@ -417,4 +417,38 @@ theorem quiescent_complete (sp : Spec) (orc : String → Bool) (rk : String → 
       · simp [he]
   rw [hiff]
 
+/-- number of execution rows per task at quiescence: none for a task outside the semantic set, at
+    least one for a task of the semantic set, EXACTLY ONE for a join of the semantic set -/
+theorem quiescent_row_counts (sp : Spec) (orc : String → Bool) (rk : String → Nat) (hsp : SpecOK sp rk)
+    (w : World) (h : QInv sp orc w) (hq : w.pending = []) (hnp : w.wf ≠ .PAUSED) (n : String) :
+    (sem sp orc n = none → countL w.tasks n = 0) ∧
+    (sem sp orc n ≠ none → 1 ≤ countL w.tasks n) ∧
+    ((isJoin sp n).isSome = true → sem sp orc n ≠ none → countL w.tasks n = 1) := by
+  have hd : isCompleted w.wf = true := by
+    rcases h.started with h1 | h1 | h1 | h1 | h1
+    · exact absurd hq (Imp.not_stuck sp rk hsp w h.live h1)
+    · exact absurd h1 hnp
+    · rw [h1]; decide
+    · rw [h1]; decide
+    · rw [h1]; decide
+  have hge : sem sp orc n ≠ none → 1 ≤ countL w.tasks n := by
+    intro hs
+    obtain ⟨r, hr, hrn⟩ := complete_rows sp orc rk hsp w h hd (rk n + 1) n (by omega) hs
+    unfold countL
+    have : r ∈ w.tasks.filter (·.name == n) := List.mem_filter.mpr ⟨hr, by simp [hrn]⟩
+    exact List.length_pos_of_mem this
+  refine ⟨?_, hge, ?_⟩
+  · intro hs
+    unfold countL
+    rw [List.length_eq_zero_iff, List.filter_eq_nil_iff]
+    intro r hr hrn
+    have hrn' : r.name = n := by simpa using hrn
+    have := (h.s.rows r hr).1
+    rw [hrn'] at this
+    exact this hs
+  · intro hj hs
+    have := Imp.live_jru sp w h.live n hj
+    have := hge hs
+    omega
+
 end Mistral.Sem
